@@ -97,7 +97,32 @@ def faults(ctx, rng, kind, data, budget):
             out.append(("ff-bytes", b"\xff" * ln))
             out.append(("printable-bytes", bytes(rng.choice(b"abcdefghij0123456789 :-") for _ in range(ln))))
     rng.shuffle(out)
-    return out[:budget]
+    out = out[:budget]
+    # gzip: several members in one file (what `cat a.gz b.gz` or `gzip -c x >> a.gz` produce), trailing garbage and a trailer
+    # whose ISIZE disagrees with the stream; always included
+    if kind.startswith("text.gz") or kind.startswith("fixedstruct.gz"):
+        plain = None
+        try:
+            import gzip as _gz
+            plain = _gz.decompress(data)
+        except Exception:
+            pass
+        if plain:
+            small, big = plain[:max(1, len(plain) // 3)], plain + plain + plain
+            out.append(("gz-multi-member:small-then-large", gen.gz_bytes(small) + gen.gz_bytes(big)))
+            out.append(("gz-multi-member:large-then-small", gen.gz_bytes(big) + gen.gz_bytes(small)))
+            out.append(("gz-multi-member:three", gen.gz_bytes(small) + gen.gz_bytes(small) + gen.gz_bytes(big)))
+            out.append(("gz-multi-member:first-over-64k", gen.gz_bytes(plain * (70000 // len(plain) + 1)) + gen.gz_bytes(plain * (200000 // len(plain) + 1))))
+            out.append(("gz-trailing-garbage", data + bytes(rng.randrange(256) for _ in range(37))))
+            out.append(("gz-trailing-zeros", data + b"\x00" * 512))
+            b = bytearray(data)
+            b[-4:] = (len(plain) * 3).to_bytes(4, "little")
+            out.append(("gz-isize-too-large", bytes(b)))
+            b[-4:] = (max(1, len(plain) // 2)).to_bytes(4, "little")
+            out.append(("gz-isize-too-small", bytes(b)))
+            b[-4:] = (0).to_bytes(4, "little")
+            out.append(("gz-isize-zero", bytes(b)))
+    return out
 
 
 def asan_signature(log):
